@@ -395,9 +395,10 @@ def ir_rules(chk, mods):
 # ---------------------------------------------------------------------------------------------------------
 # R20.5 manager init covers what submit / flush assume
 def init_coverage(M, F, mods_fn, depth=0):
-    """Byte mask of the manager struct that F (state = arg 0) writes on every path; None if a loop has a shape
-    the analysis does not understand."""
+    """(byte mask of the manager struct that F (state = arg 0) certainly writes on every path, number of indexed
+    stores in loops of a shape the analysis does not understand - those contribute nothing to the mask)."""
     cov = 0
+    unknown = 0
     # blocks that lie on every path to the return: those that dominate the ret
     rets = F.rets()
     for I in F.all_insts():
@@ -412,9 +413,8 @@ def init_coverage(M, F, mods_fn, depth=0):
                 G = mods_fn.get(cal)
                 r0 = F.ptr_root(I.ops[0])
                 if G is not None and not G.decl and F.is_arg(r0[0], 0) and r0[1] == 0 and all(F.must_pass(R, {I.id}) for R in rets):
-                    sub = init_coverage(G.module, G, mods_fn, depth + 1)
-                    if sub is None:
-                        return None
+                    sub, u2 = init_coverage(G.module, G, mods_fn, depth + 1)
+                    unknown += u2
                     cov |= sub
         elif I.op == "store":
             root, off = F.ptr_root(I.ops[1])
@@ -445,7 +445,8 @@ def init_coverage(M, F, mods_fn, depth=0):
                                 base += e["index"] * e["esize"]
                 P = F.resolve(P.ops[0])
             if not ok or var is None:
-                return None
+                unknown += 1
+                continue
             G_, esize = var
             idx = None
             for o in G_.ops[1:]:
@@ -455,7 +456,8 @@ def init_coverage(M, F, mods_fn, depth=0):
                 if isinstance(r, ir.Inst) and r.op == "phi":
                     idx = r
             if idx is None:
-                return None
+                unknown += 1
+                continue
             # phi [0, pre], [add phi 1, latch]; loop header compares phi ult K
             inc_ok = start_ok = False
             for inc in idx.incoming:
@@ -469,10 +471,11 @@ def init_coverage(M, F, mods_fn, depth=0):
                 if U.op == "icmp" and U.pred in ("ult", "slt") and F.const_int(U.ops[1]) is not None:
                     K = F.const_int(U.ops[1])
             if not (inc_ok and start_ok and K is not None and 0 < K <= 64):
-                return None
+                unknown += 1
+                continue
             for k in range(K):
                 cov |= ((1 << size) - 1) << (base + k * esize)
-    return cov
+    return cov, unknown
 
 
 def exposed_reads(lib, key, limit):
@@ -540,10 +543,10 @@ def r20_5(chk, lib, mods):
         for sn, ds in G.module.distructs.items():
             if sn.endswith("_MB_JOB_MGR"):
                 size = ds["size"]
-        cov = init_coverage(G.module, G, mods_fn)
-        if cov is None or size is None:
-            chk.broke("R20.5: %s has a store loop that is not a canonical counted loop (or the manager struct is unknown)" % iname)
+        if size is None:
+            chk.broke("R20.5: the manager struct of %s is unknown" % iname)
             continue
+        cov, unknown_loops = init_coverage(G.module, G, mods_fn)
         for u in sorted(users):
             k = lib._by_name.get(u)
             if k is None:
@@ -552,6 +555,10 @@ def r20_5(chk, lib, mods):
             ex = exposed_reads(lib, k, size)
             missing = ex & ~cov
             n += 1
+            if missing and unknown_loops:
+                # the bytes may be written by a loop whose shape is not understood: no verdict, and not a pass either
+                chk.broke("R20.5: %s reads manager bytes that %s is not seen to write, but %d indexed store(s) of that init sit in a loop that is not a canonical counted loop" % (u, iname, unknown_loops))
+                continue
             chk.obligation("R20.5", missing == 0, key=(src, u), sample={"unit": src, "init": iname, "user": u, "exposed_bytes": bin(ex).count("1"), "init_covers_bytes": bin(cov).count("1")})
             if missing:
                 offs = [b for b in range(size) if missing >> b & 1]
